@@ -252,9 +252,11 @@ type c11opts struct {
 	extra      string // symbols appended after the history (C12: "cx")
 	failAt     int    // vos fault plan (0 = none)
 	shortWrite bool
-	heal       bool              // C12: after the event in which the fault hit let 31 s pass
+	heal       bool              // C12: after the event in which the fault hit let 31 s pass (healFor if set)
+	healFor    time.Duration
 	image      map[string]string // start from this directory content (a restart) instead of an empty one
 	table      map[byte]c11tsym  // symbols defined by the scenario (burst); they override the fixed alphabet
+	blocked    bool              // start state: a directory sits at the temporary compaction file's path (every compaction fails)
 }
 
 type c11res struct {
@@ -313,6 +315,9 @@ func c11event(sym byte) serf.Event {
 func c11exec(o c11opts) *c11res {
 	r := &c11res{faultEv: -1}
 	fs := vos.NewFS(o.image)
+	if o.blocked {
+		fs.Blocked = map[string]bool{c11path + ".compact": true}
+	}
 	fs.FailAt = o.failAt
 	fs.ShortWrite = o.shortWrite
 	r.fs = fs
@@ -401,7 +406,11 @@ func c11exec(o c11opts) *c11res {
 				if r.faultEv == -1 {
 					r.faultEv = i
 				}
-				vsched.Advance(int64(31 * time.Second))
+				d := 31 * time.Second
+				if o.healFor > 0 {
+					d = o.healFor
+				}
+				vsched.Advance(int64(d))
 				drain()
 			}
 		}
@@ -555,6 +564,7 @@ type c11replay struct {
 	ShortWrite bool   `json:"short_write,omitempty"`
 	Burst      string `json:"burst,omitempty"`
 	Shift      int    `json:"shift,omitempty"`
+	Blocked    bool   `json:"temp_file_blocked,omitempty"`
 }
 
 func init() {
@@ -562,7 +572,7 @@ func init() {
 		ID:    "C11",
 		Level: "fault_enumeration",
 		Rule: "crash_images: for every history over the 11-symbol alphabet {join a, join a at a new address, join b, leave a, failed b, user event LTime 1/3, query LTime 2, local clock +1, +600 ms, +500 ms (ticker)} of length 1..4 (quick) / 1..5 plus the length-6 histories that start with the join of a or of b (thorough), for minCompactSize 1 and 64, the real NewSnapshotter is driven over the in-memory directory and shut down; one case = one crash point (after each logged open/write/sync/close/remove/rename, plus 'before the first'), recovered by a fresh real NewSnapshotter on the directory image of that point. " +
-			"Member a has a 200-byte name so that size-triggered compactions with a non-empty rejoin set happen inside these histories. non-trivial = the directory image differs from the previous crash point's and at least one line had reached the snapshot file. burst/*: two scripted histories in which 18-23 members with ~200-byte names (node-1 is a prefix of node-10..19) join, two leave/fail, one rejoins at a new address and the clocks jump from 1 to 150 within one flush interval, so the snapshotter's 4096-byte bufio.Writer hands the OS a chunk that ends in the middle of a line; the length of the second member's name is swept over 460 values so that the chunk boundary falls on every byte of the not-alive / alive / clock / event-clock / query-clock lines of interest; every crash point is checked as above with the reference reading complete lines only; non-trivial there = the snapshot file ends in an unterminated fragment at the crash point",
+			"Member a has a 200-byte name so that size-triggered compactions with a non-empty rejoin set happen inside these histories. non-trivial = the directory image differs from the previous crash point's and at least one line had reached the snapshot file. burst/*: two scripted histories in which 18-23 members with ~200-byte names (node-1 is a prefix of node-10..19) join, two leave/fail, one rejoins at a new address and the clocks jump from 1 to 150 within one flush interval, so the snapshotter's 4096-byte bufio.Writer hands the OS a chunk that ends in the middle of a line; the length of the second member's name is swept over 460 values so that the chunk boundary falls on every byte of the not-alive / alive / clock / event-clock / query-clock lines of interest; every crash point is checked as above with the reference reading complete lines only; non-trivial there = the snapshot file ends in an unterminated fragment at the crash point. Config crash/len<=3/minCompact=1/temp-file-blocked: the same with a directory sitting at the compaction's temporary file path (every compaction fails, appends go on), healed at once or later",
 		Assumptions: []string{
 			"process-crash semantics: bytes handed to File.Write survive, bytes still in the snapshotter's bufio.Writer do not; each Write call is atomic (a torn last line arises only where the buffered writer itself splits a line over two Write calls, which the burst scenarios force); fsync is irrelevant for survival",
 			"events are pushed at quiescent points (the snapshotter keeps up); the two snapshotter threads run under the deterministic default schedule",
@@ -579,6 +589,7 @@ type c11cfg struct {
 	alpha      string
 	prefix     string // restrict to histories with this first-symbol class ("" = all)
 	name       string
+	blocked    bool
 }
 
 func c11configs(ctx *vc.Ctx) []c11cfg {
@@ -591,6 +602,13 @@ func c11configs(ctx *vc.Ctx) []c11cfg {
 			out = append(out, c11cfg{minCompact: mc, maxLen: 6, alpha: c11alphabet, prefix: "ab", name: fmt.Sprintf("crash/len=6,first=join/minCompact=%d", mc)})
 		}
 	}
+	// start state "the temporary compaction file cannot be created": every compaction fails, the
+	// old file stays in use; what was appended must still be recovered in order, without holes
+	bl := 3
+	if ctx.Thorough() {
+		bl = 4
+	}
+	out = append(out, c11cfg{minCompact: 1, maxLen: bl, alpha: c11alphabet, blocked: true, name: fmt.Sprintf("crash/len<=%d/minCompact=1/temp-file-blocked", bl)})
 	return out
 }
 
@@ -607,7 +625,9 @@ func c11run(ctx *vc.Ctx) {
 			c11burstCase(ctx, scn, rp.Burst, rp.Shift, true)
 			return
 		}
+		c11blocked = rp.Blocked
 		c11history(ctx, scn, rp.MinCompact, rp.History, true)
+		c11blocked = false
 		return
 	}
 	idx := 0
@@ -628,12 +648,17 @@ func c11run(ctx *vc.Ctx) {
 				scn.StopReason = "time budget"
 				return
 			}
+			c11blocked = cf.blocked
 			c11history(ctx, scn, cf.minCompact, h, false)
+			c11blocked = false
 		})
 	}
 	c11continueRun(ctx, &idx)
 	c11burstRun(ctx, &idx)
 }
+
+// c11blocked: the history being run starts with the temporary compaction file's path blocked.
+var c11blocked bool
 
 // c11history runs one history and checks every crash point.
 func c11history(ctx *vc.Ctx, scn *vc.Scenario, minCompact int, h string, verbose bool) {
@@ -641,8 +666,8 @@ func c11history(ctx *vc.Ctx, scn *vc.Scenario, minCompact int, h string, verbose
 		minCompact: minCompact, label: fmt.Sprintf("history %q", h), nsyms: len(h),
 		symName: func(i int) string { return fmt.Sprintf("%q", h[i]) },
 		m:       c11simulate(h),
-		r:       c11exec(c11opts{minCompact: minCompact, syms: h}),
-		rp:      c11replay{Check: "C11", MinCompact: minCompact, History: h},
+		r:       c11exec(c11opts{minCompact: minCompact, syms: h, blocked: c11blocked}),
+		rp:      c11replay{Check: "C11", MinCompact: minCompact, History: h, Blocked: c11blocked},
 		verbose: verbose, sample: len(h) >= 3,
 	})
 }
